@@ -12,6 +12,8 @@ A part is either
 DEFAULT_INVARIANTS = ["RetRefines", "InspConsistent", "CursorInBounds", "ResultContract", "FurthestFailure", "NoPanic", "StepBound"]
 
 ALL_ETYS = ["rich", "simple", "cheap", "empty"]
+# left-recursive grammars have no PEG denotation (the reference would not terminate): machine-only invariants
+NO_DEN = ["InspConsistent", "CursorInBounds", "NoPanic", "StepBound"]
 
 
 def ex(name, fam, size, length, **kw):
@@ -50,6 +52,27 @@ PLANS = {
     "C06": {
         "quick": [ex("err3", "err", 3, 3, etys=["rich"], modes=["E"]), ex("err2", "err", 2, 3, etys=ALL_ETYS), rec("errR", "err", 1500, 8, 8, etys=ALL_ETYS)],
         "thorough": [ex("err3", "err", 3, 4, etys=["rich", "simple"]), ex("err2", "err", 2, 4, etys=ALL_ETYS), rec("errR", "err", 30000, 10, 10, etys=ALL_ETYS)],
+    },
+    "C08": {
+        "quick": [ex("rcv3", "rcv", 3, 3), rec("rcvR", "rcv", 1500, 8, 8)],
+        "thorough": [ex("rcv3", "rcv", 3, 4), rec("rcvR", "rcv", 30000, 10, 10)],
+    },
+    "C11": {
+        "quick": [ex("memo3", "memo", 3, 3), ex("lrec", "lrec", 1, 5, alphabet=["a", "+"], invariants=NO_DEN), ex("recm", "rec", 1, 4, alphabet=["a", "b", "(", ")"]),
+                  rec("memoR", "memo", 1500, 8, 8)],
+        "thorough": [ex("memo3", "memo", 3, 4), ex("lrec", "lrec", 1, 7, alphabet=["a", "+"], invariants=NO_DEN), rec("memoR", "memo", 30000, 10, 10)],
+    },
+    "C12": {
+        "quick": [ex("rec", "rec", 1, 5, alphabet=["a", "b", "(", ")"]), rec("recR", "rec", 1500, 8, 10)],
+        "thorough": [ex("rec", "rec", 1, 6, alphabet=["a", "b", "(", ")"]), rec("recR", "rec", 30000, 10, 14)],
+    },
+    "C15": {
+        "quick": [ex("ctx3", "ctx", 3, 3), rec("ctxR", "ctx", 1500, 8, 8)],
+        "thorough": [ex("ctx3", "ctx", 3, 4), rec("ctxR", "ctx", 30000, 10, 10)],
+    },
+    "C17": {
+        "quick": [ex("lbl3", "lbl", 3, 3), rec("lblR", "lbl", 1500, 8, 8)],
+        "thorough": [ex("lbl3", "lbl", 3, 4), rec("lblR", "lbl", 30000, 10, 10)],
     },
     "C18": {
         "quick": [ex("peg2", "peg", 2, 3), ex("emit2", "emit", 2, 3), rec("pegR", "peg", 1500, 8, 8)],
